@@ -10,7 +10,8 @@
     sets for the string and matrix maps.  Port graphs (modelled host side):
     [c08_portgraph_run_no_panic], [c08_portgraph_run_total].  The baselines on
     strings and matrices: [c08_string_single_total], [c08_matrix_single_total],
-    [c08_string_naive_total], [c08_matrix_naive_total].  Construction as a
+    [c08_string_naive_total], [c08_matrix_naive_total], and on port graphs
+    [c08_portgraph_single_total], [c08_portgraph_naive_total].  Construction as a
     whole is decided by exploration: every generated
     and degenerate case of every other property is run under catch_unwind
     (overflow and debug assertions enabled) with a wall-clock limit, and the
@@ -20,7 +21,7 @@ From PM Require Import Model.Prelude Model.Domain Model.BindMaps Model.DomString
   Model.Automaton Model.Traversal Cert.WfCheck Cert.ExampleAut
   Model.Toposort Proofs.ToposortProofs Proofs.BindMapHistories Proofs.BindMapMatrixProofs Proofs.StringTotal Proofs.MatrixTotal Cert.CharCert
   Model.DomPGKeys Model.DomPG Proofs.RunTotal Proofs.PGTotal Proofs.PGTerminates
-  Model.Matchers Proofs.SingleTotalDomains.
+  Model.Matchers Model.Constraint Model.DomPGPattern Proofs.SingleTotalDomains Proofs.PGSingleTotal.
 
 Theorem c08_toposort_next_total_partial :
   forall g order, t_closed g ->
@@ -92,6 +93,20 @@ Theorem c08_matrix_naive_total :
     exists fuel0, forall fuel, (fuel0 <= fuel)%nat -> exists ms, naive matrix_dom fuel (map m_cvec pats) h = Ok ms.
 Proof. exact m_naive_total. Qed.
 
+(** port graphs: the baseline on the constraints of every pattern whose conversion
+    succeeds; the naive many-matcher on every list of arity-correct constraint lists *)
+Theorem c08_portgraph_single_total :
+  forall (g : pghost) (root : N) (cs : list pgconstraint) (h : pghost),
+    pg_constraint_vec g root = Ok cs ->
+    exists fuel0, forall fuel, (fuel0 <= fuel)%nat -> exists r, single pg_dom fuel cs h = Ok r.
+Proof. exact pg_single_total. Qed.
+
+Theorem c08_portgraph_naive_total :
+  forall (css : list (list pgconstraint)) (h : pghost),
+    (forall cs c, In cs css -> In c cs -> length (cargs c) = pg_arity (cpred c)) ->
+    exists fuel0, forall fuel, (fuel0 <= fuel)%nat -> exists ms, naive pg_dom fuel css h = Ok ms.
+Proof. exact pg_naive_total_css. Qed.
+
 Example c08_example :
   wf_check string_dom ex_aut (compute_rank ex_aut) [0; 1; 2]%N = true /\ arity_ok string_dom ex_aut = true.
 Proof. vm_compute. auto. Qed.
@@ -105,5 +120,7 @@ Print Assumptions c08_string_single_total.
 Print Assumptions c08_matrix_single_total.
 Print Assumptions c08_string_naive_total.
 Print Assumptions c08_matrix_naive_total.
+Print Assumptions c08_portgraph_single_total.
+Print Assumptions c08_portgraph_naive_total.
 Print Assumptions c08_string_retain_total_partial.
 Print Assumptions c08_matrix_retain_total_partial.
